@@ -19,6 +19,7 @@ CONSTANTS
   DevRateKeyHeader = FALSE
   DevRefundOnRefusal = TRUE
   RateBad = TRUE
+  DevTrimValues = FALSE
   DevRawNewlines = FALSE
 INVARIANTS C28_Rate
 VIEW View
